@@ -40,6 +40,7 @@ FEATURES = [
     "UNICODE_DOC",
     "MEMBER_ACCESS",
     "DEEP_PACKAGE",
+    "NAME_ECHO",
 ]
 
 DOC_STYLES = ["PLAINTEXT", "NUMPYDOC", "GOOGLE", "REST"]
@@ -670,6 +671,24 @@ class PackageGenerator:
                 cn = tgt.public_classes[0]
                 mx.body.append(f"def build() -> tgtmod.{cn}:\n    return tgtmod.{cn}()\n")
                 mx.body.append(f"DEFAULT = tgtmod.{cn}\n")
+
+        if self.f("NAME_ECHO"):
+            # declarations named like (a prefix of) a directory segment of their own target path: the common idiom
+            # `shapes/circle/__init__.py: from ._circle import circle`
+            echo = r.choice(["circle", "shape", "tools", "widget"])
+            pk = f"{top}.{sub_a}.{echo}"
+            me = self.new_module(pk, f"_{echo}")
+            me.body.append(self.gen_function(me, echo, me.qname))
+            me.body.append(self.gen_class(me, echo.title(), None, n_methods=1))
+            me.all_classes.append(echo.title())
+            self.inits[pk].append(f"from ._{echo} import {echo}")
+            self.inits[pk].append(f"from ._{echo} import {echo.title()}")
+            # a function whose name is a prefix of the parent package's name, re-exported by the grand-parent
+            pre = sub_a[: max(1, len(sub_a) - 1)] if len(sub_a) > 1 else sub_a
+            mp = self.new_module(f"{top}.{sub_a}", "_prefixed")
+            mp.body.append(self.gen_function(mp, pre, mp.qname))
+            self.inits[top].append(f"from {mp.qname} import {pre}")
+            self.probes.setdefault("name_echo", []).append({"package": pk, "names": [echo, pre]})
 
         if self.f("UNDERSCORE_TWIN"):
             pk = r.choice(pkgs)
